@@ -2,6 +2,7 @@ package gen
 
 import (
 	"go/ast"
+	"go/constant"
 	"go/token"
 	"go/types"
 	"strings"
@@ -122,30 +123,25 @@ func isMembership(prog *load.Program, fn *types.Func, pi int, depth int) bool {
 				}
 			}
 		}
+		isNo := func() bool {
+			for _, r := range rs.Results {
+				if isConstFalseOrNil(info, r) {
+					continue
+				}
+				if c, ok := constIntOf(info, r); ok && c < 0 {
+					continue
+				}
+				return false
+			}
+			return true
+		}
 		switch {
 		case answer(last):
 			found = true
-		case isConstFalseOrNil(info, last):
-		case isConstTrue(info, last):
-			// `return elem, true` must sit under `key == param` inside a loop
-			guarded := false
-			for _, enc := range enclosing(d.Body, rs) {
-				if is, ok := enc.(*ast.IfStmt); ok && within(is.Body, rs) {
-					for _, c := range conjuncts(is.Cond) {
-						if eqParam(c) {
-							guarded = true
-						}
-					}
-				}
-			}
-			if guarded {
-				found = true
-			} else {
-				okAll = false
-			}
+		case isNo():
 		default:
 			// a local bool defined from an answer
-			if id, ok := ast.Unparen(last).(*ast.Ident); ok {
+			if id, ok := ast.Unparen(last).(*ast.Ident); ok && len(rs.Results) == 1 {
 				def := false
 				ast.Inspect(d.Body, func(y ast.Node) bool {
 					if as, ok := y.(*ast.AssignStmt); ok {
@@ -164,9 +160,51 @@ func isMembership(prog *load.Program, fn *types.Func, pi int, depth int) bool {
 				})
 				if def {
 					found = true
-				} else {
-					okAll = false
+					return true
 				}
+			}
+			// a "yes" (an element, true, an index): it must sit under `key == param`, or directly after
+			// `if key != param { continue }`, inside a loop
+			guarded := false
+			for _, enc := range enclosing(d.Body, rs) {
+				if is, ok := enc.(*ast.IfStmt); ok && within(is.Body, rs) {
+					for _, c := range conjuncts(is.Cond) {
+						if eqParam(c) {
+							guarded = true
+						}
+					}
+				}
+			}
+			if !guarded {
+				ast.Inspect(d.Body, func(y ast.Node) bool {
+					blk, ok := y.(*ast.BlockStmt)
+					if !ok {
+						return true
+					}
+					for i, st := range blk.List {
+						if st != ast.Stmt(rs) || i == 0 {
+							continue
+						}
+						if is, ok := blk.List[i-1].(*ast.IfStmt); ok && is.Else == nil && len(is.Body.List) == 1 {
+							if br, ok := is.Body.List[0].(*ast.BranchStmt); ok && br.Tok == token.CONTINUE {
+								if be, ok := ast.Unparen(is.Cond).(*ast.BinaryExpr); ok && be.Op == token.NEQ && (isParam(be.X) || isParam(be.Y)) {
+									guarded = true
+								}
+							}
+						}
+					}
+					return true
+				})
+			}
+			inLoop := false
+			for _, enc := range enclosing(d.Body, rs) {
+				switch enc.(type) {
+				case *ast.RangeStmt, *ast.ForStmt:
+					inLoop = true
+				}
+			}
+			if guarded && inLoop {
+				found = true
 			} else {
 				okAll = false
 			}
@@ -369,4 +407,20 @@ func forwarding(info *types.Info, fd *ast.FuncDecl, call *ast.CallExpr) bool {
 		}
 	}
 	return len(call.Args) > 0
+}
+
+func constIntOf(info *types.Info, e ast.Expr) (int64, bool) {
+	tv := info.Types[e]
+	if tv.Value == nil {
+		return 0, false
+	}
+	v, ok := constantInt64(tv)
+	return v, ok
+}
+
+func constantInt64(tv types.TypeAndValue) (int64, bool) {
+	if tv.Value.Kind() != constant.Int {
+		return 0, false
+	}
+	return constant.Int64Val(tv.Value)
 }
